@@ -18,18 +18,13 @@
    the line is read (input() or getpass: `hide_user_input` only selects PasswordInputHandler, whose request
    goes through the same InputThreadManager), translation (the keys are the untranslated "yes" / "no").
 
-   What the vocabulary of ScreenSem.v cannot say (reported; ScreenSem.v is not changed here):
-   (G1) the initial value of `answer`.  [scr0] starts every screen at [AnsNoAttr]; YesNoDialog and
-        PasswordDialog define the property, initially None (= [AnsOther]).  Encoding used here: the first
-        refresh() sets it ([init_answer]) — refresh() always runs before a screen can take input or be
-        closed by its own input.  The encoding differs from the Python only when `answer` is read before
-        the dialog was ever refreshed: push_screen_modal() that returns at once because force_quit() was
-        called earlier in the same callback.
-   (G2) ErrorDialog.input() calls sys.exit(1): SystemExit passes `except Exception` and run()'s
-        `except ExitMainLoop` and ends the process.  No [scmd] raises [XSysExit]; the nearest command is
-        [SExit] (ExitMainLoop: run() returns normally).  [error_dialog_spec] uses it: up to and including the
-        T_INPUT event of the dialog the model and the class agree; after it the Python leaves with
-        SystemExit where the model leaves with ExitMainLoop.
+   Formerly gaps, closed since ScreenSem.v has [sc_answer0] and [SSysExit]:
+   (G1) the initial value of `answer`: YesNoDialog and PasswordDialog define the property in the class, initially
+        None; [sc_answer0 := AnsOther] says so (it holds before any callback ran, also for a quit dialog that was
+        never rendered: push_screen_modal() that returns at once after force_quit()).
+   (G2) ErrorDialog.input() calls sys.exit(1): [SSysExit] (SystemExit passes `except Exception` of
+        InputManager.process_input and `except ExitMainLoop` of run(), the session ends).
+   What the vocabulary of ScreenSem.v still cannot say (ScreenSem.v is not changed here):
    (G3) PasswordDialog.prompt() does the work itself: it creates a PasswordInputHandler with source = the
         screen, waits for the line, stores it, calls self.close() when the input was successful, and returns
         None.  A spec's prompt is only "None or not"; the nearest description is "the last thing show_all()
@@ -44,16 +39,13 @@ Import ListNotations.
 Definition s_yes : str := [121; 101; 115]%N.     (* C_('TUI|Spoke Navigation', 'yes') = "yes" *)
 Definition s_no : str := [110; 111]%N.           (* C_('TUI|Spoke Navigation', 'no')  = "no"  *)
 
-(* (G1) self._response = None / self._password = None of __init__, done by the first refresh() *)
-Definition init_answer (a : answer) : list scmd := [SIfCount 1 [SSetAnswer a] []].
-
 (* a UIScreen subclass that overrides nothing *)
 Definition stock_base : screen_spec :=
   {| sc_setup := [];                 (* UIScreen.setup: always True *)
      sc_refresh := []; sc_show := []; sc_closed := [];
      sc_input := []; sc_input_default := ([], None);      (* UIScreen.input returns the key *)
      sc_prompt_none := false; sc_input_required := true; sc_no_separator := false; sc_skip_check := false;
-     sc_pages := 0 |}.
+     sc_pages := 0; sc_answer0 := AnsNoAttr |}.
 
 (* ---------------------------------------------------------------- YesNoDialog
    input(args, key):  key == "yes": _response = True;  return PROCESSED_AND_CLOSE
@@ -61,19 +53,19 @@ Definition stock_base : screen_spec :=
                       return DISCARDED                       (also for c / r / q: no global key inside the dialog)
    answer: _response (None | True | False);  prompt(): Prompt("Please respond 'yes' or 'no'") *)
 Definition yes_no_dialog_spec : screen_spec :=
-  {| sc_setup := []; sc_refresh := init_answer AnsOther; sc_show := []; sc_closed := [];
+  {| sc_setup := []; sc_refresh := []; sc_show := []; sc_closed := [];
      sc_input := [ (s_yes, ([SSetAnswer AnsTrue], RClose)); (s_no, ([SSetAnswer AnsOther], RClose)) ];
      sc_input_default := ([], Some RDiscarded);
      sc_prompt_none := false; sc_input_required := true; sc_no_separator := false; sc_skip_check := false;
-     sc_pages := 0 |}.
+     sc_pages := 0; sc_answer0 := AnsOther      (* self._response = None in __init__ *) |}.
 
 (* ---------------------------------------------------------------- ErrorDialog
-   input(args, key): sys.exit(1)   -- (G2);  no `answer`;  prompt(): Prompt("Press ENTER to exit") *)
+   input(args, key): sys.exit(1)   = [SSysExit];  no `answer`;  prompt(): Prompt("Press ENTER to exit") *)
 Definition error_dialog_spec : screen_spec :=
   {| sc_setup := []; sc_refresh := []; sc_show := []; sc_closed := [];
-     sc_input := []; sc_input_default := ([SExit], Some RNone);
+     sc_input := []; sc_input_default := ([SSysExit], Some RNone);
      sc_prompt_none := false; sc_input_required := true; sc_no_separator := false; sc_skip_check := false;
-     sc_pages := 0 |}.
+     sc_pages := 0; sc_answer0 := AnsNoAttr |}.
 
 (* ---------------------------------------------------------------- HelpScreen
    input(args, key): return PROCESSED_AND_CLOSE;  no `answer`;  prompt(): Prompt("Press ENTER to return").
@@ -82,7 +74,7 @@ Definition help_screen_spec : screen_spec :=
   {| sc_setup := []; sc_refresh := []; sc_show := []; sc_closed := [];
      sc_input := []; sc_input_default := ([], Some RClose);
      sc_prompt_none := false; sc_input_required := true; sc_no_separator := false; sc_skip_check := false;
-     sc_pages := 0 |}.
+     sc_pages := 0; sc_answer0 := AnsNoAttr |}.
 
 (* ---------------------------------------------------------------- GetInputScreen / GetPasswordInputScreen
    input(args, key): if not self._test_input(key): return DISCARDED
@@ -110,7 +102,7 @@ Definition get_input_screen_spec (conds : list acond) : screen_spec :=
      sc_input := map (fun k => (k, ([], accept_ret (test_input conds k)))) (flat_map cond_keys conds);
      sc_input_default := ([], Some (accept_ret (forallb cond_default conds)));
      sc_prompt_none := false; sc_input_required := true; sc_no_separator := false; sc_skip_check := false;
-     sc_pages := 0 |}.
+     sc_pages := 0; sc_answer0 := AnsNoAttr |}.
 
 (* GetPasswordInputScreen = GetInputScreen with hide_user_input = True (the line is read by getpass) *)
 Definition get_password_input_screen_spec (conds : list acond) : screen_spec := get_input_screen_spec conds.
@@ -122,12 +114,12 @@ Definition get_password_input_screen_spec (conds : list acond) : screen_spec := 
    input(args, key): if key: _password = key; return PROCESSED_AND_CLOSE;  return DISCARDED
    answer: _password (None | the string): never `True` *)
 Definition password_dialog_spec : screen_spec :=
-  {| sc_setup := []; sc_refresh := init_answer AnsOther;
+  {| sc_setup := []; sc_refresh := [];
      sc_show := [SGetUserInput; SCloseSig];
      sc_closed := [];
      sc_input := [ ([], ([], RDiscarded)) ]; sc_input_default := ([SSetAnswer AnsOther], Some RClose);
      sc_prompt_none := true; sc_input_required := true; sc_no_separator := false; sc_skip_check := false;
-     sc_pages := 0 |}.
+     sc_pages := 0; sc_answer0 := AnsOther      (* self._password = None in __init__ *) |}.
 
 (* ---------------------------------------------------------------- the kinds the harness can ask for *)
 Inductive adv_kind :=
